@@ -474,8 +474,26 @@ class Inliner:
         ast.fix_missing_locations(new)
         return pre + [new]
 
+    def _split_and(self, f: FuncInfo, st: ast.stmt) -> Optional[ast.stmt]:
+        """`if A and helper(..): B [else: E]`  ->  `if A: if helper(..): B [else: E] [else: E]` so that the helper call becomes
+        the test of its own `if` and can be hoisted and inlined (short-circuit order is kept)."""
+        if not (isinstance(st, ast.If) and isinstance(st.test, ast.BoolOp) and isinstance(st.test.op, ast.And) and len(st.test.values) >= 2):
+            return None
+        later = st.test.values[1:]
+        if not any(isinstance(c, ast.Call) and self.resolve(f, c) is not None and self._single_return_expr(self.resolve(f, c)) is None
+                   for v in later for c in ast.walk(v)):
+            return None
+        first = st.test.values[0]
+        rest = later[0] if len(later) == 1 else ast.BoolOp(op=ast.And(), values=list(later))
+        inner = ast.copy_location(ast.If(test=rest, body=st.body, orelse=copy.deepcopy(st.orelse)), st)
+        outer = ast.copy_location(ast.If(test=first, body=[inner], orelse=st.orelse), st)
+        return ast.fix_missing_locations(outer)
+
     def _rewrite_stmt(self, f: FuncInfo, st: ast.stmt, depth: int) -> list:
         if depth < MAX_DEPTH:
+            sp = self._split_and(f, st)
+            if sp is not None:
+                return self._rewrite_stmt(f, sp, depth)
             h = self._hoist(f, st, depth)
             if h is not None:
                 out: list = []
